@@ -39,11 +39,15 @@ def ev_lit(kind, file, line, func):
 
 def gen_locs(rng):
     locs = []
+    # a small pool per case keeps several tracepoints on one file / one line / one function frequent (merging by location)
+    files = rng.sample(CFG_FILES, rng.choice([1, 2, 3]))
+    funcs = rng.sample(FUNCS[:3] + ["never", "runf", "ru", "n"], rng.choice([2, 3]))
+    lines = rng.sample([1, 2, 3, 4, 99], rng.choice([2, 3]))
     for _ in range(rng.choice([0, 1, 2, 4, 6])):
         if rng.random() < 0.6:
-            locs.append(("line", rng.choice(CFG_FILES + ["zz.py"]), rng.choice([1, 2, 3, 4, 99])))
+            locs.append(("line", rng.choice(files + ["zz.py"]), rng.choice(lines)))
         else:
-            locs.append(("func", rng.choice(CFG_FILES), rng.choice(FUNCS[:3] + ["never", "runf", "ru", "n"])))
+            locs.append(("func", rng.choice(files), rng.choice(funcs)))
     # several tracepoints on one location
     for _ in range(rng.choice([0, 0, 1, 2])):
         if locs:
